@@ -1,8 +1,10 @@
 package rules
 
 import (
+	"fmt"
 	"go/token"
 	"strings"
+	"time"
 
 	"adgverif/an"
 
@@ -17,7 +19,11 @@ func decide(c *an.Ctx, rule, fnKey string, cfg an.DecideCfg) {
 		return
 	}
 	c.Analysed(fnKey)
+	t0 := time.Now()
 	res := c.Decide(fn, cfg)
+	if d := time.Since(t0); d > 2*time.Second {
+		c.Notes = append(c.Notes, fmt.Sprintf("slow decision-tree extraction: %s took %s (%d runs)", fnKey, d.Round(time.Millisecond), res.Runs))
+	}
 	switch {
 	case res.Und != "":
 		c.Und(rule, fnKey, fn.Pos(), "decision table cannot be extracted: %s", res.Und)
